@@ -44,7 +44,15 @@ func scenarioStamp() int {
 	defer w0.Close()
 	w := &stampWorld{World: w0}
 	for _, u := range w.UAs {
-		e, err := w.Net.UDP(fmt.Sprintf("ua%d-eph", u.Index), u.IP+":0")
+		// (one user agent sends from the highest port there is, another from port 1)
+		src := u.IP + ":0"
+		switch len(w.eph) {
+		case 0:
+			src = u.IP + ":65535"
+		case 1:
+			src = u.IP + ":1"
+		}
+		e, err := w.Net.UDP(fmt.Sprintf("ua%d-eph", u.Index), src)
 		if err != nil {
 			fmt.Println("HARNESS-ERROR", err)
 			return 2
